@@ -41,3 +41,154 @@ def run(repo, outdir):
         except Exception as e:  # pylint: disable=broad-except
             results.append((name, False, repr(e)[:400]))
     return results
+
+
+def coq_str(s):
+    assert all(32 <= ord(ch) <= 126 for ch in s), s
+    return '"%s"%%string' % s.replace('"', '""')
+
+
+def _py_files(repo, sub='vermouth'):
+    out = []
+    for root, dirs, files in os.walk(os.path.join(repo, sub)):
+        dirs[:] = [d for d in dirs if d not in ('tests', '__pycache__', 'data')]
+        for fn in sorted(files):
+            if fn.endswith('.py'):
+                out.append(os.path.join(root, fn))
+    return sorted(out)
+
+
+def _const_str(node):
+    if isinstance(node, ast.Constant) and isinstance(node.value, str):
+        return node.value
+    return None
+
+
+def _call_name(call):
+    f = call.func
+    if isinstance(f, ast.Name):
+        return f.id
+    if isinstance(f, ast.Attribute):
+        return f.attr
+    return None
+
+
+def _mode_of(call, name):
+    """Mode literal of an open-like call; 'r' when absent; ExtractError if not a literal."""
+    for kw in call.keywords:
+        if kw.arg == 'mode':
+            m = _const_str(kw.value)
+            if m is None:
+                raise ExtractError('non-literal mode at line %d' % call.lineno)
+            return m
+    if len(call.args) >= 2:
+        m = _const_str(call.args[1])
+        if m is None:
+            raise ExtractError('non-literal mode at line %d' % call.lineno)
+        return m
+    return 'r'
+
+
+@extractor
+def write_sites(repo):
+    """Every call in vermouth/**.py (tests and file_writer.py itself excluded) that opens a file
+    for writing, classified by how it reaches the disk; plus the default of every
+    `defer_writing` parameter and every call in bin/martinize2 passing defer_writing."""
+    sites = []
+    defaults = []
+    for path in _py_files(repo):
+        rel = os.path.relpath(path, repo)
+        if rel == os.path.join('vermouth', 'file_writer.py'):
+            continue
+        tree = ast.parse(open(path).read())
+        funcs = [n for n in ast.walk(tree) if isinstance(n, (ast.FunctionDef, ast.AsyncFunctionDef))]
+        covered = set()
+        scopes = [(f.name, f) for f in funcs] + [('<module>', tree)]
+        for fname, fnode in scopes:
+            if fname != '<module>':
+                args = fnode.args
+                names = [a.arg for a in args.args]
+                defs = [None] * (len(names) - len(args.defaults)) + list(args.defaults)
+                for n, d in zip(names, defs):
+                    if n == 'defer_writing':
+                        if not (isinstance(d, ast.Constant) and isinstance(d.value, bool)):
+                            raise ExtractError('defer_writing default not a bool literal in %s:%s' % (rel, fname))
+                        defaults.append((rel, fname, d.value))
+                for n, d in zip([a.arg for a in args.kwonlyargs], args.kw_defaults):
+                    if n == 'defer_writing':
+                        defaults.append((rel, fname, bool(getattr(d, 'value', False))))
+            gated = False
+            scratch = False
+            for n in ast.walk(fnode):
+                if isinstance(n, ast.If) and isinstance(n.test, ast.Name) and n.test.id == 'defer_writing':
+                    for st in n.body:
+                        if (isinstance(st, ast.Assign) and len(st.targets) == 1 and isinstance(st.targets[0], ast.Name)
+                                and st.targets[0].id == 'open' and isinstance(st.value, ast.Name)
+                                and st.value.id == 'deferred_open'):
+                            gated = True
+                if isinstance(n, ast.Call) and _call_name(n) == 'mkstemp':
+                    kws = {kw.arg: _const_str(kw.value) for kw in n.keywords}
+                    if kws.get('prefix') == 'dssp_in_' and kws.get('dir') == '.':
+                        scratch = True
+            for n in ast.walk(fnode):
+                if not isinstance(n, ast.Call) or id(n) in covered:
+                    continue
+                cname = _call_name(n)
+                if cname not in ('open', '_open', 'deferred_open', 'fdopen'):
+                    continue
+                if fname == '<module>' and any(id(n) in {id(x) for x in ast.walk(f)} for f in funcs):
+                    continue
+                covered.add(id(n))
+                mode = _mode_of(n, cname)
+                if not any(ch in mode for ch in 'wax+'):
+                    continue
+                if cname == 'deferred_open':
+                    kind = 'Deferred'
+                elif cname == 'open' and gated:
+                    kind = 'Gated'
+                elif cname == 'fdopen' and scratch:
+                    kind = 'DsspScratch'
+                else:
+                    kind = 'Plain'
+                sites.append((rel, fname, n.lineno, kind))
+    # nested functions are walked by their parents too: deduplicate on (file, line)
+    seen = {}
+    for rel, fname, line, kind in sites:
+        key = (rel, line)
+        if key not in seen or kind != 'Plain':
+            seen[key] = (rel, fname, line, kind)
+    sites = sorted(seen.values())
+    # the CLI: calls that switch deferral off
+    cli = os.path.join(repo, 'bin', 'martinize2')
+    tree = ast.parse(open(cli).read())
+    off = []
+    for f in [n for n in ast.walk(tree) if isinstance(n, ast.FunctionDef)]:
+        for n in ast.walk(f):
+            if isinstance(n, ast.Call):
+                for kw in n.keywords:
+                    if kw.arg == 'defer_writing':
+                        if not isinstance(kw.value, ast.Constant):
+                            raise ExtractError('non-literal defer_writing in CLI line %d' % n.lineno)
+                        if kw.value.value is not True:
+                            # which debug option guards it: nearest enclosing `if write_X is not None`
+                            guard = ''
+                            for g in ast.walk(f):
+                                if isinstance(g, ast.If) and any(x is n for x in ast.walk(g)):
+                                    t = g.test
+                                    if (isinstance(t, ast.Compare) and isinstance(t.left, ast.Name)
+                                            and len(t.ops) == 1 and isinstance(t.ops[0], ast.IsNot)):
+                                        guard = t.left.id
+                            off.append((f.name, n.lineno, guard))
+    text = ['(* GENERATED by vlib/extract.py from /repo: do not edit *)',
+            'From Coq Require Import List String NArith Bool.', 'Import ListNotations.',
+            'Inductive site_kind := Deferred | Gated | DsspScratch | Plain.',
+            'Definition write_sites : list (string * string * N * site_kind) := [']
+    text.append(';\n'.join('  (%s, %s, %d%%N, %s)' % (coq_str(r), coq_str(f), l, k) for r, f, l, k in sites))
+    text.append('].')
+    text.append('Definition defer_defaults : list (string * string * bool) := [')
+    text.append(';\n'.join('  (%s, %s, %s)' % (coq_str(r), coq_str(f), 'true' if v else 'false') for r, f, v in defaults))
+    text.append('].')
+    text.append('Definition cli_undeferred : list (string * N * string) := [')
+    text.append(';\n'.join('  (%s, %d%%N, %s)' % (coq_str(f), l, coq_str(g)) for f, l, g in off))
+    text.append('].')
+    return 'WriteSites.v', '\n'.join(text) + '\n'
